@@ -83,6 +83,21 @@ func (cx *Ctx) runOp(rule string, spec opSpec) *opRun {
 		// the thorough tier as well
 		ps.loopBound = 1
 	}
+	var stageHelpers []*ssa.Function
+	if spec.kind == "bulkGet" {
+		// the stages of the bulk read (lookup, start, collect) may have been split off into helpers of their own: they are
+		// inlined together with their loops, so that the events of a stage are seen wherever it lives (the callees that
+		// are summarised as events are set below and stay summarised)
+		allInstrs(fn, func(in ssa.Instruction) {
+			if g := calleeOf(in); g != nil && g.Pkg != nil && g.Pkg == fn.Pkg && g.Parent() == nil && !g.Object().Exported() && len(origin(g).Blocks) > 0 {
+				loadBaseline()
+				pkg, recv, _ := funcKey(g)
+				if _, known := baselineFuncs[pkg+"|"+recv+"|"+cname(g)]; !known {
+					stageHelpers = append(stageHelpers, origin(g))
+				}
+			}
+		})
+	}
 	if spec.kind == "setExp" || spec.kind == "setRefr" {
 		// the decision to leave a deadline as it is must be a function of that deadline: record such comparisons
 		ps.alsoRelevant = []string{"ExpiresAt(", "RefreshableAt(", "param:expiresAfter", "param:refreshableAfter"}
@@ -99,6 +114,9 @@ func (cx *Ctx) runOp(rule string, spec opSpec) *opRun {
 		parts := strings.Split(k, ".")
 		if f := cx.P.Func("", parts[0], parts[1]); f != nil {
 			ps.asEvents[origin(f)] = kind
+			if kind == "GetNode" && cname(origin(f)) == "getNodeQuietly" {
+				ps.eventExtra[origin(f)] = []string{"quiet"}
+			}
 		} else if kind == "StartCall" {
 			// the get-or-create step of the in-flight table may have been split by record kind: resolve it by role
 			fs := startCallRoles(cx)
@@ -111,6 +129,11 @@ func (cx *Ctx) runOp(rule string, spec opSpec) *opRun {
 			}
 		} else {
 			cx.R.Undecided(rule, k, "anchor", "-", "summarised callee "+k+" does not resolve")
+		}
+	}
+	for _, g := range stageHelpers {
+		if _, ev := ps.asEvents[g]; !ev {
+			ps.inlineLoops[g] = true
 		}
 	}
 	outs := ps.Run(fn, spec.preset)
@@ -330,9 +353,9 @@ func canonAtom(a string) string {
 // constants of the program the oracles refer to
 type progConsts struct {
 	causeInvalidation, causeReplacement, causeOverflow, causeExpiration string
-	addReason, deleteReason, updateReason                                string
-	cancelOp, writeOp, invalidateOp                                      string
-	ok                                                                   bool
+	addReason, deleteReason, updateReason                               string
+	cancelOp, writeOp, invalidateOp                                     string
+	ok                                                                  bool
 }
 
 func (cx *Ctx) consts(rule string) progConsts {
